@@ -146,6 +146,41 @@ func (p *c07) Run(w *lib.Worker, idx int, r *lib.Rand) lib.Case {
 	return c
 }
 
+// KnownCrash attributes a process death to the recorded finding composition-cycle-stack-overflow-in-default-example-validation
+// by call site and input class: a stack overflow, below the default / example validators, on a document whose
+// definitions hold a cycle through composition positions (compiling a validator for such a definition never ends).
+func (p *c07) KnownCrash(tier string, seed int64, idx int, stderr string) string {
+	if !strings.Contains(stderr, "stack overflow") {
+		return ""
+	}
+	if !strings.Contains(stderr, "(*defaultValidator)") && !strings.Contains(stderr, "(*exampleValidator)") {
+		return ""
+	}
+	if p.fixtures == nil {
+		p.fixtures, _ = gen.FixtureDocs(model.RepoDir())
+	}
+	text, _, _ := mutatedDoc(idx, lib.NewRand(seed, "C07", idx), p.fixtures)
+	if text == nil || !docHasCompositionCycle(text) {
+		return ""
+	}
+	return "composition-cycle-stack-overflow-in-default-example-validation"
+}
+
+// docHasCompositionCycle parses the document (JSON or YAML text) and looks for a cycle of definitions through
+// composition positions.
+func docHasCompositionCycle(text []byte) bool {
+	doc, err := sut.LoadSpec(text)
+	if err != nil {
+		return false
+	}
+	raw, err := model.Parse(doc.Raw())
+	if err != nil {
+		return false
+	}
+	m, _ := raw.(map[string]any)
+	return m != nil && gen.CompositionCycle(m)
+}
+
 func (p *c07) Finish(a *lib.Aggregate) (broken []string) {
 	if a.Tags["valid:no"] == 0 {
 		broken = append(broken, "no loadable mutated document was rejected: mutations too weak")
